@@ -9,6 +9,15 @@ ROOT = pathlib.Path(__file__).resolve().parent.parent
 
 # id -> (technique, level text, level_note, design_ref)
 CHECKS = {
+    "C08": (
+        "snapshot differential: raw-index snapshots of A and B before, of A' and B after insert_hugr / insert_* ; the returned (or hierarchy-derived) mapping is checked as an isomorphism and everything else for identity",
+        "1500 (quick) / 50000 (thorough) pairs (A, B) from programs and mutation histories (B with holes, index reuse, multi-linked ports, "
+        "duplicate and order links, metadata; parents at every depth of A) and 400 / 12000 builder-level inserts of standalone Dfg / Cfg / "
+        "Conditional / TailLoop programs: mapping domain, injectivity, freshness; per B node op, metadata, output port count, ordered children; "
+        "link multisets with offsets; A's old nodes/links unchanged except the one new last child; B untouched; wires attached to inputs.",
+        "Trusted: vf/props/c08.py snapshot. ParentBeforeChild refusals are not judged; metadata dict aliasing not judged.",
+        "DESIGN.md §3 C08",
+    ),
     "C17": (
         "golden + differential monitor: the repo's own generate_schema.py is executed on the working tree and its four outputs compared path by path with the four published files; acceptance agreement jsonschema(published) vs pydantic on emitted documents and coinciding-semantics mutations",
         "One execution per configuration of the real schema generator (fresh process) must reproduce the published strict/lax HUGR and testing "
